@@ -53,3 +53,41 @@ Print Assumptions C02_best_access_is_code.
 Theorem C02_reverse_scan_is_code : forall d p k, rev_scan_code d p k = rev_scan d p k false.
 Proof. exact rev_scan_tie. Qed.
 Print Assumptions C02_reverse_scan_is_code.
+
+(* tie to the source, geographic filters: the walking tables themselves honour the maximum they were asked for.
+   src/euclideangeofilter.cpp and the row loop of src/osrmgeofilter.cpp are read AS THEY ARE NOW by tools/gen_geo.py into
+   TYPED expression trees (gen/Geo.v) and evaluated by coq/Geo.v (int operations wrap to 32 bits, floating operations
+   are exact rationals — float ROUNDING is outside the model —, `int x = <float>` truncates and is an error outside the
+   int range).  This is the `fp_time r <=? q_maxacc p` conjunct of wf_tables_b for the rows the server builds itself.
+   Hypothesis `d2 < 2^62`: the stop is less than 2^31 m away (GeoTie.env_d2_on_earth: true of any two points given in
+   degrees); beyond, `int distanceMeters = sqrt(..)` is undefined behaviour and "no limit" does not exclude it. *)
+From Coq Require QArith Qround.
+Require TrV.Geo TrV.gen.Geo.
+From TrV Require Proofs.GeoTie.
+Module GEO.
+  Import Coq.QArith.QArith Coq.QArith.Qround TrV.Geo TrV.Proofs.GeoTie.
+  Local Open Scope Z_scope.
+  Theorem C02_euclidean_rows_within_maximum : forall (ie : ivar -> Z) (fe : fvar -> Q),
+    0 <= ie IMaxT -> in_int (ie IMaxT) = true -> (0 < fe FSpeed)%Q -> (env_d2 fe < inject_Z (2 ^ 62))%Q ->
+    eval ie fe GG.gen_geo_euclid_guard = Some (VB true) ->
+    exists dist time,
+      eval ie fe GG.gen_geo_euclid_distance = Some (VI dist) /\ dist = Z.sqrt (Qfloor (env_d2 fe)) /\ 0 <= dist /\
+      eval ie fe GG.gen_geo_euclid_time = Some (VI time) /\ time = Qtrunc (inject_Z dist / fe FSpeed) /\
+      0 <= time <= ie IMaxT.
+  Proof.
+    intros ie fe H1 H2 H3 H4 H5. destruct (euclid_row_within_maximum ie fe H1 H2 H3 H4 H5) as [dist [time [A [B [C [D [E [F _]]]]]]]].
+    exists dist, time. repeat split; try assumption; try (apply F). rewrite E, B. reflexivity.
+  Qed.
+  (* a row of the walking router's reply is kept iff ceil(duration) <= the maximum; its time is that ceil *)
+  Theorem C02_osrm_row_guard_is_code : forall (ie : ivar -> Z) (fe : fvar -> Q),
+    in_int (ie IMaxT) = true -> in_int (Qceiling (fe FDuration)) = true ->
+    eval ie fe GG.gen_geo_osrm_row_time = Some (VI (Qceiling (fe FDuration))) /\
+    eval ie fe GG.gen_geo_osrm_row_guard = Some (VB (Qceiling (fe FDuration) <=? ie IMaxT)).
+  Proof.
+    intros ie fe H1 H2. split.
+    - unfold GG.gen_geo_osrm_row_time. geo_eval. rewrite (f2i_inject_Z _ H2). reflexivity.
+    - exact (osrm_row_guard_is_code ie fe H1 H2).
+  Qed.
+End GEO.
+Print Assumptions GEO.C02_euclidean_rows_within_maximum.
+Print Assumptions GEO.C02_osrm_row_guard_is_code.
